@@ -645,7 +645,23 @@ func addr(c byte, shard byte) []byte {
 
 // ExecKinds are the priced executions of H3.
 var ExecKinds = []string{"ESDTNFTTransfer", "ESDTNFTCreate", "SaveKeyValue", "MultiESDTNFTTransfer", "ESDTNFTAddURI",
-	"ESDTNFTTransfer/same-shard", "MultiESDTNFTTransfer/same-shard", "ESDTTransfer", "ESDTLocalMint", "ESDTNFTUpdateAttributes"}
+	"ESDTNFTTransfer/same-shard", "MultiESDTNFTTransfer/same-shard", "ESDTTransfer", "ESDTLocalMint", "ESDTNFTUpdateAttributes",
+	"ESDTTransfer/to-contract-with-call", "ESDTNFTTransfer/same-shard-contract-with-call", "MultiESDTNFTTransfer/same-shard-contract-with-call",
+	"ESDTLocalBurn", "ESDTNFTAddQuantity", "ESDTNFTBurn"}
+
+// Gas is the ample gas of the reference executions.
+const Gas = uint64(1_000_000_000)
+
+// RefOutcome is the complete outcome of kind executed alone under Schedule(base) with the given
+// gas (success or the error text, gas left, gas consumed).
+func RefOutcome(kind string, base, gas uint64) ExecResult {
+	return ExecGas(NewLiteWith(base), kind, "S", gas)
+}
+
+// Same reports whether two executions had the same observable outcome.
+func (r ExecResult) Same(o ExecResult) bool {
+	return r.OK == o.OK && r.Err == o.Err && r.Consumed == o.Consumed && r.Remaining == o.Remaining && r.Forwarded == o.Forwarded
+}
 
 // RefCharge is what kind consumes when executed alone under Schedule(base) (measured on the real
 // code, sequentially): an execution overlapping a schedule change must consume one of the two
@@ -666,6 +682,9 @@ type ExecResult struct {
 	Consumed uint64
 	Payload  uint64 // bytes of NFT payload in the emitted message
 	ArgBytes uint64
+	// Remaining is the gas the output leaves, Forwarded the gas handed to output transfers
+	Remaining uint64
+	Forwarded uint64
 }
 
 // Exec runs one priced execution of the given kind on fresh accounts against l's container.
@@ -674,8 +693,10 @@ func Exec(l *Lite, kind string) ExecResult { return ExecTok(l, kind, "S") }
 // ExecTok is Exec naming token tok in the call. The sender holds NFT, roles and counter for the
 // token "S" only: with any other (equally long) name the role-gated kinds must be refused and the
 // transfers must fail for lack of a holding - in every schedule.
-func ExecTok(l *Lite, kind string, tok string) ExecResult {
-	const gas = uint64(1_000_000_000)
+func ExecTok(l *Lite, kind string, tok string) ExecResult { return ExecGas(l, kind, tok, Gas) }
+
+// ExecGas is ExecTok with the given gas.
+func ExecGas(l *Lite, kind string, tok string, gas uint64) ExecResult {
 	snd := newLiteAccount(addr('a', 0))
 	dst := addr('c', 1)
 	nft := &esdt.ESDigitalToken{Type: 1, Value: big.NewInt(3), TokenMetaData: &esdt.MetaData{Nonce: 1, Name: []byte("name"), Creator: snd.addr, Hash: []byte("hash"), URIs: [][]byte{[]byte("uri")}, Attributes: []byte("attr")}}
@@ -683,13 +704,16 @@ func ExecTok(l *Lite, kind string, tok string) ExecResult {
 	snd.storage["ELRONDesdtS\x01"] = raw
 	fung, _ := (&esdt.ESDigitalToken{Value: big.NewInt(9)}).Marshal()
 	snd.storage["ELRONDesdtF"] = fung
-	roles, _ := (&esdt.ESDTRoles{Roles: [][]byte{[]byte(vmcommon.ESDTRoleNFTCreate), []byte(vmcommon.ESDTRoleNFTAddURI), []byte(vmcommon.ESDTRoleNFTUpdateAttributes)}}).Marshal()
+	roles, _ := (&esdt.ESDTRoles{Roles: [][]byte{[]byte(vmcommon.ESDTRoleNFTCreate), []byte(vmcommon.ESDTRoleNFTAddURI), []byte(vmcommon.ESDTRoleNFTUpdateAttributes),
+		[]byte(vmcommon.ESDTRoleNFTAddQuantity), []byte(vmcommon.ESDTRoleNFTBurn)}}).Marshal()
 	snd.storage["ELRONDroleesdtS"] = roles
 	snd.storage["ELRONDnonceS"] = []byte{1}
 	snd.storage["k1"] = []byte("vv")
-	roles, _ = (&esdt.ESDTRoles{Roles: [][]byte{[]byte(vmcommon.ESDTRoleLocalMint)}}).Marshal()
+	roles, _ = (&esdt.ESDTRoles{Roles: [][]byte{[]byte(vmcommon.ESDTRoleLocalMint), []byte(vmcommon.ESDTRoleLocalBurn)}}).Marshal()
 	snd.storage["ELRONDroleesdtF"] = roles
 	local := addr('b', 0)
+	localSC := make([]byte, 32) // a contract of this shard
+	localSC[9], localSC[10], localSC[30] = 5, 's', 0x22
 	fn := kind
 	if i := strings.Index(kind, "/"); i >= 0 {
 		fn = kind[:i]
@@ -706,6 +730,18 @@ func ExecTok(l *Lite, kind string, tok string) ExecResult {
 		args = [][]byte{local, {2}, []byte(tok), {1}, {1}, []byte("F"), {0}, {2}}
 	case "ESDTTransfer":
 		args = [][]byte{[]byte(ftok), {2}}
+	case "ESDTTransfer/to-contract-with-call":
+		args = [][]byte{[]byte(ftok), {2}, []byte("f"), []byte("x")}
+	case "ESDTNFTTransfer/same-shard-contract-with-call":
+		args = [][]byte{[]byte(tok), {1}, {1}, localSC, []byte("f"), []byte("x")}
+	case "MultiESDTNFTTransfer/same-shard-contract-with-call":
+		args = [][]byte{localSC, {2}, []byte(tok), {1}, {1}, []byte("F"), {0}, {2}, []byte("f"), []byte("x")}
+	case "ESDTLocalBurn":
+		args = [][]byte{[]byte(ftok), {2}}
+	case "ESDTNFTAddQuantity":
+		args = [][]byte{[]byte(tok), {1}, {2}}
+	case "ESDTNFTBurn":
+		args = [][]byte{[]byte(tok), {1}, {1}}
 	case "ESDTLocalMint":
 		args = [][]byte{[]byte(ftok), {2}}
 	case "ESDTNFTUpdateAttributes":
@@ -730,6 +766,10 @@ func ExecTok(l *Lite, kind string, tok string) ExecResult {
 	if kind == "ESDTTransfer" {
 		in.RecipientAddr = dst // user transaction to another shard: no destination account here
 		hd = nil
+	}
+	if kind == "ESDTTransfer/to-contract-with-call" {
+		in.RecipientAddr = localSC // a contract of this shard: the remaining gas is forwarded to its call
+		hd = newLiteAccount(localSC)
 	}
 	out, err := f.ProcessBuiltinFunction(snd, hd, in)
 	res := ExecResult{Kind: kind}
@@ -756,6 +796,7 @@ func ExecTok(l *Lite, kind string, tok string) ExecResult {
 		}
 	}
 	res.Consumed = gas - out.GasRemaining - fwd
+	res.Remaining, res.Forwarded = out.GasRemaining, fwd
 	return res
 }
 
